@@ -43,6 +43,9 @@ def write_tree(root, files):
         d = os.path.dirname(p)
         if d:
             os.makedirs(d, exist_ok=True)
+        if mode == 'link':   # a symbolic link, data = its target
+            os.symlink(data, p)
+            continue
         with open(p, 'wb') as f:
             f.write(data)
         os.chmod(p, 0o644 if mode is None else mode)
@@ -98,8 +101,10 @@ def snapshot(root, meta=False, skip=('patches', 'series')):
 
 
 def tree_of(snap):
-    """tracked files of a snapshot: everything except .pc/** and *.rej; {path: (bytes, mode)}"""
-    return {p: (v[1], v[2]) for p, v in snap.items() if v[0] == 'F' and not p.startswith('.pc/') and not p.endswith('.rej')}
+    """tracked files of a snapshot: everything except .pc/** and *.rej; {path: (bytes, mode)}; a symbolic link is (target, 'link')"""
+    out = {p: (v[1], v[2]) for p, v in snap.items() if v[0] == 'F' and not p.startswith('.pc/') and not p.endswith('.rej')}
+    out.update({p: (v[1].encode(), 'link') for p, v in snap.items() if v[0] == 'L' and not p.startswith('.pc/')})
+    return out
 
 
 def dirs_of(snap):
